@@ -3,14 +3,38 @@
 //! packets from a type-directed random generator over the builders.
 //!
 //! Lines (one case each):
-//!   P <ver 4|5> <pw 2|4> <fh hex> <bodyhex> = ok <consumed> <size()> <continuous hex> <to_buffers hex | ~> | err <MqttError> | PANIC
+//!   P <ver 4|5> <pw 2|4> <fh hex> <bodyhex> = ok <consumed> <size()> <continuous hex> <to_buffers hex | ~> <R1|R0> acc=<dump> | err <MqttError> | PANIC
 //!   B <ver> <pw> <fh hex> <k=v …> = err <MqttError> | PANIC
-//!                                 | ok <size()> <continuous hex> <to_buffers hex | ~> ; <parse result of its own body, as in P> ; eq=<0|1>
+//!                                 | ok <size()> <continuous hex> <to_buffers hex | ~> ; <parse result of its own body, as in P (with acc=)> ; eq=<0|1>
 //!   E <ver> <pw> <fh hex> len=<n> cases=<n> ok=<n> err=<n> panic=<n> bad=<n>     (harness-side exhaustive sweep, full alphabet)
+//!
+//! R1/R0: re-parsing the packet's own encoding gives / does not give a packet with the same encoding.
+//!
+//! acc=<dump>: the "accessor dump" of the accepted packet — every field value as the packet's PUBLIC
+//! ACCESSORS return it (never taken from the input bytes, never from the serialiser), one token
+//! without spaces, always the LAST word of a parse result.  `acc=PANIC` if an accessor panicked.
+//!   <dump>  ::= <key>:<value>{,<key>:<value>} | -            (`-`: the kind has no fields)
+//!   numbers (packet id, keep alive, codes, protocol version) in decimal, flags as 0/1,
+//!   an absent optional value as `-`,
+//!   <bytes> ::= `_` (present, empty) | lowercase hex (≤ 64 bytes) | L<len>#<FNV-1a-32 of the bytes, 8 hex digits> (> 64 bytes)
+//!   <props> ::= [<prop>{;<prop>}]   <prop> ::= <id>:<number> | <id>:<bytes> | <id>:<bytes>/<bytes>  (by value accessor, in packet order)
+//!   per kind (keys in this order):
+//!     CONNECT      pn:<bytes>,pv,cs,[cst (v3.1.1 `clean_start()` alias),]wf,wq,wr,uf,pf,ka,[props:<props>, (v5)]cid:<bytes>,
+//!                  [wprops:<props>, (v5)]wt:<bytes|->,wp:<bytes|->,user:<bytes|->,pass:<bytes|->
+//!     CONNACK      sp,rc[,props:<props> (v5)]
+//!     PUBLISH      dup,qos,ret,topic:<bytes>,pid:<n|->,[props:<props>, (v5)]payload:<bytes>
+//!     PUBACK/PUBREC/PUBREL/PUBCOMP   pid,rc:<n|->[,props:<props|-> (v5)]
+//!     SUBSCRIBE    pid,[props:<props>, (v5)]entries:[<bytes>/<options byte from qos()/nl()/rap()/rh()>{;…}]
+//!     SUBACK       pid,[props:<props>, (v5)]codes:[<n>{;<n>}]
+//!     UNSUBSCRIBE  pid,[props:<props>, (v5)]topics:[<bytes>{;<bytes>}]
+//!     UNSUBACK     pid (v3.1.1) | pid,props:<props>,codes:[…] (v5)
+//!     PINGREQ/PINGRESP/DISCONNECT v3.1.1   -
+//!     DISCONNECT/AUTH v5   rc:<n|->,props:<props|->
 use crate::rng::{hex, unhex, Rng};
 use mqtt_protocol_core::mqtt::packet::v3_1_1 as v3;
 use mqtt_protocol_core::mqtt::packet::v5_0 as v5;
 use mqtt_protocol_core::mqtt::packet::*;
+use mqtt_protocol_core::mqtt::prelude::PropertyValueAccess;
 use mqtt_protocol_core::mqtt::result_code::*;
 use mqtt_protocol_core::mqtt::Arc;
 use std::io::Write;
@@ -21,6 +45,8 @@ pub struct Obs {
     size: usize,
     cont: Vec<u8>,
     bufs: Vec<u8>,
+    /// accessor dump (see `AccDump`)
+    acc: String,
 }
 
 pub enum Res {
@@ -38,11 +64,18 @@ fn observe<P: GenericPacketTrait>(p: &P) -> (usize, Vec<u8>, Vec<u8>) {
     (p.size(), cont, bufs)
 }
 
-fn run<P: GenericPacketTrait>(f: impl FnOnce() -> Result<(P, usize), MqttError>) -> Res {
+/// the accessor dump of an accepted packet; an accessor that panics is reported as such (and not
+/// as a panic of the parser)
+fn observe_acc<P: AccDump>(p: &P) -> String {
+    catch_unwind(AssertUnwindSafe(|| p.acc())).unwrap_or_else(|_| "PANIC".to_string())
+}
+
+fn run<P: GenericPacketTrait + AccDump>(f: impl FnOnce() -> Result<(P, usize), MqttError>) -> Res {
     match catch_unwind(AssertUnwindSafe(|| {
         f().map(|(p, c)| {
             let (size, cont, bufs) = observe(&p);
-            Obs { consumed: c, size, cont, bufs }
+            let acc = observe_acc(&p);
+            Obs { consumed: c, size, cont, bufs, acc }
         })
     })) {
         Ok(Ok(o)) => Res::Ok(o),
@@ -62,15 +95,298 @@ fn reparse_same(ver: u8, pw: u8, cont: &[u8]) -> bool {
 fn show(r: &Res, ver: u8, pw: u8) -> String {
     match r {
         Res::Ok(o) => format!(
-            "ok {} {} {} {} {}",
+            "ok {} {} {} {} {} acc={}",
             o.consumed,
             o.size,
             hex(&o.cont),
             if o.bufs == o.cont { "~".to_string() } else { hex(&o.bufs) },
-            if reparse_same(ver, pw, &o.cont) { "R1" } else { "R0" }
+            if reparse_same(ver, pw, &o.cont) { "R1" } else { "R0" },
+            o.acc
         ),
         Res::Err(e) => format!("err {e}"),
         Res::Panic => "PANIC".to_string(),
+    }
+}
+
+// ----------------------------------------------------------------------------------------
+// accessor dump: the field values of an accepted packet as its PUBLIC ACCESSORS return them
+// (format at the top of the file).  Nothing here reads the input bytes, `to_continuous_buffer()`
+// or `to_buffers()`: a parser / serialiser pair that is self-consistent but reads a field
+// differently from the specification shows up as a difference to the dump of the model's packet.
+
+pub trait AccDump {
+    fn acc(&self) -> String;
+}
+
+fn fnv1a32(b: &[u8]) -> u32 {
+    let mut h: u32 = 0x811c_9dc5;
+    for &x in b {
+        h ^= x as u32;
+        h = h.wrapping_mul(0x0100_0193);
+    }
+    h
+}
+
+/// a byte string value: `_` empty, hex up to 64 bytes, else length + FNV-1a 32
+fn hx(b: &[u8]) -> String {
+    if b.is_empty() {
+        "_".to_string()
+    } else if b.len() <= 64 {
+        hex(b)
+    } else {
+        format!("L{}#{:08x}", b.len(), fnv1a32(b))
+    }
+}
+
+fn ohx(o: Option<&[u8]>) -> String {
+    match o {
+        Some(b) => hx(b),
+        None => "-".to_string(),
+    }
+}
+
+fn onum<T: std::fmt::Display>(o: Option<T>) -> String {
+    match o {
+        Some(v) => v.to_string(),
+        None => "-".to_string(),
+    }
+}
+
+/// one property through `id()` and its value accessor (`PropertyValueAccess`)
+fn acc_prop(p: &Property) -> String {
+    let id = p.id().as_u8();
+    if let Some(v) = p.as_u8() {
+        format!("{id}:{v}")
+    } else if let Some(v) = p.as_u16() {
+        format!("{id}:{v}")
+    } else if let Some(v) = p.as_u32() {
+        format!("{id}:{v}")
+    } else if let Some(v) = p.as_str() {
+        format!("{id}:{}", hx(v.as_bytes()))
+    } else if let Some(v) = p.as_bytes() {
+        format!("{id}:{}", hx(v))
+    } else if let Some((k, v)) = p.as_key_value() {
+        format!("{id}:{}/{}", hx(k.as_bytes()), hx(v.as_bytes()))
+    } else {
+        format!("{id}:?")
+    }
+}
+
+fn acc_list(items: impl Iterator<Item = String>) -> String {
+    format!("[{}]", items.collect::<Vec<_>>().join(";"))
+}
+
+fn acc_props(ps: &Properties) -> String {
+    acc_list(ps.iter().map(acc_prop))
+}
+
+fn acc_oprops(o: &Option<Properties>) -> String {
+    match o {
+        Some(ps) => acc_props(ps),
+        None => "-".to_string(),
+    }
+}
+
+/// filter + options byte recomposed from `qos()`, `nl()`, `rap()`, `rh()`
+fn acc_entries(es: &[SubEntry]) -> String {
+    acc_list(es.iter().map(|e| {
+        let o = e.sub_opts();
+        let byte = (o.qos() as u8) | ((o.nl() as u8) << 2) | ((o.rap() as u8) << 3) | ((o.rh() as u8) << 4);
+        format!("{}/{}", hx(e.topic_filter().as_bytes()), byte)
+    }))
+}
+
+fn acc_codes(codes: impl Iterator<Item = u8>) -> String {
+    acc_list(codes.map(|c| c.to_string()))
+}
+
+impl AccDump for v3::Connect {
+    fn acc(&self) -> String {
+        format!(
+            "pn:{},pv:{},cs:{},cst:{},wf:{},wq:{},wr:{},uf:{},pf:{},ka:{},cid:{},wt:{},wp:{},user:{},pass:{}",
+            hx(self.protocol_name().as_bytes()),
+            self.protocol_version(),
+            self.clean_session() as u8,
+            self.clean_start() as u8,
+            self.will_flag() as u8,
+            self.will_qos() as u8,
+            self.will_retain() as u8,
+            self.user_name_flag() as u8,
+            self.password_flag() as u8,
+            self.keep_alive(),
+            hx(self.client_id().as_bytes()),
+            ohx(self.will_topic().map(|s| s.as_bytes())),
+            ohx(self.will_payload()),
+            ohx(self.user_name().map(|s| s.as_bytes())),
+            ohx(self.password())
+        )
+    }
+}
+
+impl AccDump for v5::Connect {
+    fn acc(&self) -> String {
+        format!(
+            "pn:{},pv:{},cs:{},wf:{},wq:{},wr:{},uf:{},pf:{},ka:{},props:{},cid:{},wprops:{},wt:{},wp:{},user:{},pass:{}",
+            hx(self.protocol_name().as_bytes()),
+            self.protocol_version(),
+            self.clean_start() as u8,
+            self.will_flag() as u8,
+            self.will_qos() as u8,
+            self.will_retain() as u8,
+            self.user_name_flag() as u8,
+            self.password_flag() as u8,
+            self.keep_alive(),
+            acc_props(self.props()),
+            hx(self.client_id().as_bytes()),
+            acc_props(self.will_props()),
+            ohx(self.will_topic().map(|s| s.as_bytes())),
+            ohx(self.will_payload()),
+            ohx(self.user_name().map(|s| s.as_bytes())),
+            ohx(self.password())
+        )
+    }
+}
+
+impl AccDump for v3::Connack {
+    fn acc(&self) -> String {
+        format!("sp:{},rc:{}", self.session_present() as u8, self.return_code() as u8)
+    }
+}
+
+impl AccDump for v5::Connack {
+    fn acc(&self) -> String {
+        format!("sp:{},rc:{},props:{}", self.session_present() as u8, self.reason_code() as u8, acc_props(self.props()))
+    }
+}
+
+impl<T: IsPacketId> AccDump for v3::GenericPublish<T> {
+    fn acc(&self) -> String {
+        format!(
+            "dup:{},qos:{},ret:{},topic:{},pid:{},payload:{}",
+            self.dup() as u8,
+            self.qos() as u8,
+            self.retain() as u8,
+            hx(self.topic_name().as_bytes()),
+            onum(self.packet_id()),
+            hx(self.payload().as_slice())
+        )
+    }
+}
+
+impl<T: IsPacketId> AccDump for v5::GenericPublish<T> {
+    fn acc(&self) -> String {
+        format!(
+            "dup:{},qos:{},ret:{},topic:{},pid:{},props:{},payload:{}",
+            self.dup() as u8,
+            self.qos() as u8,
+            self.retain() as u8,
+            hx(self.topic_name().as_bytes()),
+            onum(self.packet_id()),
+            acc_props(self.props()),
+            hx(self.payload().as_slice())
+        )
+    }
+}
+
+macro_rules! acc_ack {
+    ($($G:ident),*) => {$(
+        impl<T: IsPacketId> AccDump for v3::$G<T> {
+            fn acc(&self) -> String {
+                format!("pid:{},rc:{}", self.packet_id(), onum(self.reason_code().map(|c| c as u8)))
+            }
+        }
+        impl<T: IsPacketId> AccDump for v5::$G<T> {
+            fn acc(&self) -> String {
+                format!("pid:{},rc:{},props:{}", self.packet_id(), onum(self.reason_code().map(|c| c as u8)), acc_oprops(self.props()))
+            }
+        }
+    )*};
+}
+acc_ack!(GenericPuback, GenericPubrec, GenericPubrel, GenericPubcomp);
+
+impl<T: IsPacketId> AccDump for v3::GenericSubscribe<T> {
+    fn acc(&self) -> String {
+        format!("pid:{},entries:{}", self.packet_id(), acc_entries(self.entries()))
+    }
+}
+
+impl<T: IsPacketId> AccDump for v5::GenericSubscribe<T> {
+    fn acc(&self) -> String {
+        format!("pid:{},props:{},entries:{}", self.packet_id(), acc_props(self.props()), acc_entries(self.entries()))
+    }
+}
+
+impl<T: IsPacketId> AccDump for v3::GenericSuback<T> {
+    fn acc(&self) -> String {
+        format!("pid:{},codes:{}", self.packet_id(), acc_codes(self.return_codes().into_iter().map(|c| c as u8)))
+    }
+}
+
+impl<T: IsPacketId> AccDump for v5::GenericSuback<T> {
+    fn acc(&self) -> String {
+        format!(
+            "pid:{},props:{},codes:{}",
+            self.packet_id(),
+            acc_props(self.props()),
+            acc_codes(self.reason_codes().into_iter().map(|c| c as u8))
+        )
+    }
+}
+
+impl<T: IsPacketId> AccDump for v3::GenericUnsubscribe<T> {
+    fn acc(&self) -> String {
+        format!("pid:{},topics:{}", self.packet_id(), acc_list(self.entries().iter().map(|t| hx(t.as_str().as_bytes()))))
+    }
+}
+
+impl<T: IsPacketId> AccDump for v5::GenericUnsubscribe<T> {
+    fn acc(&self) -> String {
+        format!(
+            "pid:{},props:{},topics:{}",
+            self.packet_id(),
+            acc_props(self.props()),
+            acc_list(self.entries().iter().map(|t| hx(t.as_str().as_bytes())))
+        )
+    }
+}
+
+impl<T: IsPacketId> AccDump for v3::GenericUnsuback<T> {
+    fn acc(&self) -> String {
+        format!("pid:{}", self.packet_id())
+    }
+}
+
+impl<T: IsPacketId> AccDump for v5::GenericUnsuback<T> {
+    fn acc(&self) -> String {
+        format!(
+            "pid:{},props:{},codes:{}",
+            self.packet_id(),
+            acc_props(self.props()),
+            acc_codes(self.reason_codes().into_iter().map(|c| c as u8))
+        )
+    }
+}
+
+macro_rules! acc_none {
+    ($($t:ty),*) => {$(
+        impl AccDump for $t {
+            fn acc(&self) -> String {
+                "-".to_string()
+            }
+        }
+    )*};
+}
+acc_none!(v3::Pingreq, v3::Pingresp, v3::Disconnect, v5::Pingreq, v5::Pingresp);
+
+impl AccDump for v5::Disconnect {
+    fn acc(&self) -> String {
+        format!("rc:{},props:{}", onum(self.reason_code().map(|c| c as u8)), acc_oprops(self.props()))
+    }
+}
+
+impl AccDump for v5::Auth {
+    fn acc(&self) -> String {
+        format!("rc:{},props:{}", onum(self.reason_code().map(|c| c as u8)), acc_oprops(self.props()))
     }
 }
 
@@ -514,7 +830,7 @@ fn gen_pid(rng: &mut Rng, pw: u8) -> u32 {
 }
 
 /// one `B` line; returns the frame if the builder accepted
-fn b_line<P: GenericPacketTrait + PartialEq>(
+fn b_line<P: GenericPacketTrait + PartialEq + AccDump>(
     out: &mut dyn Write,
     ver: u8,
     pw: u8,
